@@ -597,7 +597,7 @@ impl Oracle for Seq {
                 let expect = model(&mut tree, call, present, w.cfg.enc, &mut st);
                 w.stats = st;
                 w.stats.bump("probe.calls_checked");
-                let got = observe(&w.reps[r].doc, None).map_err(|e| fail("reads_after_call", &format!("read-inconsistency:{}", sig_of_detail(&e.0)), e.0.clone()))?;
+                let got = observe(&w.reps[r].doc, None).map_err(|e| fail("reads_after_call", &read_sig(&e.0), e.0.clone()))?;
                 let class = format!("{kind}|{:?}|{}", std::mem::discriminant(&expect), if before.count_nodes() > 6 { "big" } else { "small" });
                 if self.triples.insert(class.clone()) {
                     self.digest.str(&class);
